@@ -308,5 +308,6 @@ func main() {
 	genGlobals(pkgs, *out)
 	genApi(pkgs, *out)
 	genFns(pkgs, *out)
+	genFacts(pkgs, *out)
 	fmt.Printf("extract: %d packages\n", len(pkgs))
 }
